@@ -517,6 +517,12 @@ func (i *IniParser) parse(ini *ini) error {
 			var opt *Option
 
 			for _, group := range groups {
+				// An empty name never denotes an option (it would otherwise
+				// equal the missing ini-name or long name of some option)
+				if len(inival.Name) == 0 {
+					break
+				}
+
 				opt = group.optionByName(inival.Name, func(o *Option, n string) bool {
 					return strings.ToLower(o.tag.Get("ini-name")) == strings.ToLower(n)
 				})
